@@ -152,6 +152,8 @@ class DataTypeBuilder(_parser.StatementStreamProcessor):
 
     def on_field(self, field_type: _serializable.SerializableType, name: str) -> None:
         self._on_attribute()
+        if isinstance(field_type, _serializable.ServiceType):  # Not serializable, so the offset cannot be computed.
+            raise _error.InvalidDefinitionError("A service type cannot be used as a field type: %s" % field_type)
         self._queue_attribute(lambda doc: self._structs[-1].add_field(_serializable.Field(field_type, name, doc)))
 
     def on_padding_field(self, padding_field_type: _serializable.VoidType) -> None:
